@@ -1142,6 +1142,12 @@ func memBase(v ssa.Value) ssa.Value {
 			v = x.X
 		case *ssa.Lookup:
 			v = x.X
+		case *ssa.Extract:
+			if lk, ok := x.Tuple.(*ssa.Lookup); ok && x.Index == 0 {
+				v = lk.X
+				continue
+			}
+			return v
 		case *ssa.Field:
 			v = x.X
 		case *ssa.Index:
@@ -1208,4 +1214,81 @@ func derivesAvoiding(v ssa.Value, pred func(ssa.Value) bool, stop ssa.Value) boo
 		return false
 	}
 	return rec(v, 0)
+}
+
+// ---------------------------------------------------------------------------
+// disjunctive facts: on every path to b at least one of the given branch facts has been established
+// (greatest fixpoint; SSA values never change, so an established fact stays true).
+
+func boolFacts(v ssa.Value, want bool) []fact {
+	out := []fact{{v, want}}
+	if u, ok := v.(*ssa.UnOp); ok && u.Op == token.NOT {
+		out = append(out, boolFacts(u.X, !want)...)
+	}
+	if refs := v.Referrers(); refs != nil {
+		for _, r := range *refs {
+			if u, ok := r.(*ssa.UnOp); ok && u.Op == token.NOT {
+				out = append(out, fact{u, !want})
+			}
+		}
+	}
+	return out
+}
+
+func nilFacts(e ssa.Value, wantNil bool) []fact {
+	var out []fact
+	refs := e.Referrers()
+	if refs == nil {
+		return nil
+	}
+	for _, r := range *refs {
+		bo, ok := r.(*ssa.BinOp)
+		if !ok || (bo.Op != token.EQL && bo.Op != token.NEQ) || !(isNilConst(bo.X) || isNilConst(bo.Y)) {
+			continue
+		}
+		want := wantNil
+		if bo.Op == token.NEQ {
+			want = !wantNil
+		}
+		out = append(out, boolFacts(bo, want)...)
+	}
+	return out
+}
+
+func (p *Prog) someFactAt(S []fact, b *ssa.BasicBlock) bool {
+	f := b.Parent()
+	set := map[fact]bool{}
+	for _, x := range S {
+		set[x] = true
+	}
+	edge := func(pb, s *ssa.BasicBlock) bool {
+		if len(pb.Instrs) == 0 {
+			return false
+		}
+		ifi, ok := pb.Instrs[len(pb.Instrs)-1].(*ssa.If)
+		if !ok || pb.Succs[0] == pb.Succs[1] {
+			return false
+		}
+		return set[fact{ifi.Cond, pb.Succs[0] == s}]
+	}
+	d := map[*ssa.BasicBlock]bool{}
+	for i, blk := range f.Blocks {
+		d[blk] = !(i == 0 || len(blk.Preds) == 0)
+	}
+	for changed := true; changed; {
+		changed = false
+		for i, blk := range f.Blocks {
+			if i == 0 || len(blk.Preds) == 0 || !d[blk] {
+				continue
+			}
+			for _, pb := range blk.Preds {
+				if !edge(pb, blk) && !d[pb] {
+					d[blk] = false
+					changed = true
+					break
+				}
+			}
+		}
+	}
+	return d[b]
 }
